@@ -30,6 +30,8 @@ CONSTANTS
 VARIABLES v, hist
 vars == <<v, hist>>
 
+RecvWinM == 4     \* the server's connection receive window, in units; it hands credit back when less than half is left
+
 NoStream == [st |-> "none", hdrDone |-> FALSE, blkES |-> FALSE, trailer |-> FALSE, recv |-> 0, cl |-> -1,
              bad |-> FALSE, disp |-> FALSE, running |-> FALSE, abandoned |-> FALSE, pend |-> 0,
              pendEnd |-> FALSE, hdrSent |-> FALSE, win |-> 0, rq |-> "idle", ended |-> FALSE,
@@ -42,7 +44,9 @@ V0 == [s |-> [i \in Sids |-> NoStream], lastID |-> 0, open |-> 0, hb |-> 0, winC
        dispCnt |-> [i \in Sids |-> 0], endCnt |-> [i \in Sids |-> 0],
        \* last step: frame, allowed set and what the peer observed (for the C08 invariant)
        lf |-> [ty |-> -1, sid |-> 0], allowed |-> {P}, obs |-> [rst |-> {}, goaway |-> {}, closed |-> FALSE], judged |-> FALSE,
-       over |-> FALSE, nf |-> 0]
+       over |-> FALSE, nf |-> 0,
+       \* receive side ("credit" in Ops): the connection window as the server counts it, and the credit the peer holds
+       recvC |-> RecvWinM, credC |-> RecvWinM]
 
 -----------------------------------------------------------------------------
 (* abstract frames: the uniform record RFC7540!Allowed expects *)
@@ -220,12 +224,27 @@ FxOf(vv, f, cl, bad) ==
       clbad |-> ((f.es /\ f.ty \in {T_DATA, T_HEADERS}) \/ (f.ty = T_CONT /\ f.eh /\ x.peerES)) /\ cl1 >= 0 /\ cl1 # body,
       big |-> f.ty = T_DATA /\ body > MaxBodyM]
 
+\* C14, connection level.  Every DATA octet the peer sends spends its credit, whatever becomes of the frame; the server
+\* counts it against its receive window and, when less than half of that is left, hands the used part back in one
+\* WINDOW_UPDATE.  "defect-nocredit" in Ops = the seeded changes C14-1 / C09-2 / C14-4: a frame that is dropped (stream
+\* closed, reset, over the body limit) is not counted, so what it spent never comes back.
+Credit(before, after, f) ==
+  IF "credit" \notin Ops \/ f.ty # T_DATA THEN after
+  ELSE LET x == IF f.sid \in Sids THEN before.s[f.sid] ELSE NoStream
+           dropped == x.st # "open" \/ x.recv + f.len > MaxBodyM
+           counted == ~("defect-nocredit" \in Ops /\ dropped)
+           rc == IF counted THEN before.recvC - f.len ELSE before.recvC
+           cc == before.credC - f.len
+       IN IF rc < RecvWinM \div 2 THEN [after EXCEPT !.recvC = RecvWinM, !.credC = cc + (RecvWinM - rc)]
+          ELSE [after EXCEPT !.recvC = rc, !.credC = cc]
+
 Take(f, fx, ev) ==
   /\ ~v.dead
   /\ v.nf < MaxFrames
+  /\ ("credit" \in Ops /\ f.ty = T_DATA => f.len <= v.credC)        \* the peer is a conforming sender
   /\ LET al == AllowedM(v, f, fx)
          r == ServerStep(v, f, fx)
-     IN v' = [r.v EXCEPT !.lf = [ty |-> f.ty, sid |-> f.sid], !.allowed = al, !.obs = r.o, !.judged = TRUE, !.nf = v.nf + 1]
+     IN v' = [Credit(v, r.v, f) EXCEPT !.lf = [ty |-> f.ty, sid |-> f.sid], !.allowed = al, !.obs = r.o, !.judged = TRUE, !.nf = v.nf + 1]
   /\ hist' = Append(hist, ev)
 
 \* "wf" in Ops restricts the peer to well-formed traffic: legal frame sequences per stream, increasing ids,
@@ -324,6 +343,8 @@ C06_WinIsLedger == v.winC = v.grantC - v.sentC /\ \A i \in Sids : v.s[i].st \in 
 C06_NoStall == ~v.dead => \A i \in Sids :
      (v.s[i].st = "hc" /\ v.s[i].hdrSent /\ ~v.s[i].running /\ v.s[i].pend > 0) => (v.s[i].win <= 0 \/ v.winC <= 0)
 C10_GoAwayTruth == v.gaLast >= 0 => \A i \in Sids : v.dispCnt[i] > 0 => i <= v.gaLast
+\* C14: a conforming sender is never left without connection credit
+C14_ConnCredit == ("credit" \in Ops /\ ~v.dead) => v.credC >= 1
 C13_Slots == Cardinality(Running(v)) <= MaxConcM /\ v.open <= MaxConcM /\ v.open >= 0
 C13_OpenIsSlots == v.open = Cardinality({i \in Sids : v.s[i].st \in {"open", "hc"} \/ v.s[i].running})
 
